@@ -187,6 +187,9 @@ class Attribute:
             if not isinstance(value, (list, tuple)):
                 value = [value]
             return [self.converter(v) for v in value]
+        if isinstance(value, (list, tuple)):
+            # a single-valued attribute is written with the count 1: several values would corrupt the record
+            raise TypeError(f"{self} accepts a single value; got {type(value)}: {value}")
         return self.converter(value)
 
     @property
